@@ -1135,7 +1135,8 @@ impl Read for Message<'_> {
             Self::Encrypted { edata, .. } => edata.read(buf),
         }?;
 
-        if read == 0 {
+        // a read into an empty buffer asks for nothing: it says nothing about the end of the message
+        if read == 0 && !buf.is_empty() {
             self.check_trailing_data()?;
         }
 
